@@ -282,6 +282,93 @@ def run_check(prop, tier, seed):
     return rc
 
 
+PAIR_TIERS = {"quick": 96, "thorough": 1500}
+
+
+def _pair_init(repo):
+    sys.path.insert(0, repo)
+
+
+def run_pair_check(prop, tier, seed):
+    """C15 / C16: pairs of executions of the real engine judged by spec/CiwPair.tla"""
+    from harness import tlc, pairs
+    t0 = time.time()
+    n = PAIR_TIERS[tier]
+    work = os.path.join(VERIF, ".work", "%s_%s_%d" % (prop, tier, os.getpid()))
+    shutil.rmtree(work, ignore_errors=True)
+    os.makedirs(work)
+    known = load_known()
+    os.environ["PYTHONPATH"] = REPO + os.pathsep + VERIF
+    os.environ["CIWVERIF_REPO"] = REPO
+    ctx = mp.get_context("spawn")
+    if prop == "C16":
+        jobs = [(j, seed * 100000 + j) for j in range(n)]
+        fn = pairs.pair_c16
+    else:
+        jobs = [(j, seed * 100000 + j // 4, 1 + j % 4) for j in range(n)]
+        fn = pairs.pair_c15
+    with ctx.Pool(16, initializer=_pair_init, initargs=(REPO,), maxtasksperchild=1) as pool:
+        res = pool.map(fn, jobs, chunksize=1)
+    docs, errs = [], []
+    for d, e in res:
+        if e:
+            errs.append(e)
+        else:
+            docs.append(d)
+    if len(errs) > len(res) // 4:
+        log("MACHINERY-ERROR pair generation failed:", errs[0][-1500:])
+        return 2
+    verdicts, states = tlc.run_pair_validation(work, docs)
+    viol, kf = [], []
+    open_f = [f for f in known if f["status"] == "open" and prop in f["property"]]
+    for d, v in zip(docs, verdicts):
+        for clause in v["fails"]:
+            expl = [f for f in open_f if clause in f.get("signature", {}).get("clauses", [])
+                    and (d.get("history") in f["signature"].get("histories", [d.get("history")]))]
+            if expl:
+                kf.append((expl[0], clause, d))
+            else:
+                viol.append((clause, d, v))
+    cov = {"states": max(states, 1), "transitions": max(states - 1, 1), "traces_validated_against_impl": len(docs),
+           "pairs": len(docs), "generation_errors": len(errs), "exhaustive": False,
+           "evaluations": len(docs),
+           "distinct_nontrivial": len(set((json.dumps(d.get("scenario", d.get("seed")), sort_keys=True)[:200], d.get("history"),
+                                           len(d["a"]["recs"]) > 0) for d in docs if len(d["a"]["recs"]) > 0)),
+           "rule": "a pair is distinct by (scenario, history shape / split points) and non-trivial when the reference run wrote at least one record",
+           "samples": [{"seed": d["seed"], "history": d.get("history"), "splits": d.get("splits"),
+                        "records": len(d["a"]["recs"]), "first_records": d["a"]["recs"][:2], "verdict": v}
+                       for d, v in list(zip(docs, verdicts))[:2]],
+           "known_findings_seen": sorted(set(f["id"] for f, _, _ in kf))}
+    ev = {"property_id": prop, "tier": tier, "seed": seed, "level": "model_checking", "coverage": cov,
+          "assumptions": ["string equality of repr() is bit identity", "TLC evaluates CiwPair.tla correctly"],
+          "violations": len(viol), "wall_s": round(time.time() - t0, 1)}
+    if not os.environ.get("CIWVERIF_NOEVIDENCE"):
+        json.dump(ev, open(os.path.join(VERIF, "evidence", prop + ".json"), "w"), indent=1)
+    seenk = set()
+    for f, clause, d in kf:
+        if (f["id"], clause) in seenk:
+            continue
+        seenk.add((f["id"], clause))
+        log("KNOWN-FINDING: property=%s %s %s (clause %s, seed %s history %s)" %
+            (prop, f["id"], f["what"], clause, d["seed"], d.get("history")))
+    rc = 0
+    rd = os.path.join(VERIF, "replays" if not os.environ.get("CIWVERIF_NOEVIDENCE") else ".work/selftest_replays")
+    os.makedirs(rd, exist_ok=True)
+    for k, (clause, d, v) in enumerate(viol[:8]):
+        path = os.path.join(rd, "%s_%d.json" % (prop, k))
+        json.dump({"property": prop, "clause": clause, "seed": d["seed"], "history": d.get("history"),
+                   "splits": d.get("splits"), "scenario": d.get("scenario"), "detail": v["detail"],
+                   "a_first": d["a"]["recs"][:3], "b_first": d["b"]["recs"][:3],
+                   "a_busy": d["a"]["busy"], "b_busy": d["b"]["busy"], "a_util": d["a"]["util"], "b_util": d["b"]["util"]},
+                  open(path, "w"), indent=1)
+        log("VIOLATION property=%s replay=%s clause=%s seed=%s history=%s" % (prop, path, clause, d["seed"], d.get("history")))
+        rc = 1
+    shutil.rmtree(work, ignore_errors=True)
+    log("%s %s: %d pairs judged, %d generation errors, wall %.0fs -> %s" %
+        (prop, tier, len(docs), len(errs), time.time() - t0, "VIOLATION" if rc else "held"))
+    return rc
+
+
 def main():
     ap = argparse.ArgumentParser()
     ap.add_argument("prop")
@@ -290,7 +377,10 @@ def main():
     a = ap.parse_args()
     seed = int(os.environ.get("VERIF_SEED", "0"))
     try:
-        rc = run_check(a.prop, a.tier, seed)
+        if a.prop in ("C15", "C16"):
+            rc = run_pair_check(a.prop, a.tier, seed)
+        else:
+            rc = run_check(a.prop, a.tier, seed)
     except Exception:
         log("MACHINERY-ERROR", traceback.format_exc())
         rc = 2
